@@ -184,6 +184,133 @@ impl HubC {
         obs
     }
 
+    /// `publish(topic, n)` with the monitor's bookkeeping.  With `race = Some(id)` the publish and an
+    /// `unsubscribe(id)` run as two tasks of the same current-thread runtime (publish spawned first):
+    /// wherever the implementation yields inside `publish`, the unsubscribe runs to completion, and
+    /// whatever the publish then still enqueues for `id` was enqueued after unsubscribe returned.
+    fn do_pub(&mut self, topic: &str, n: u64, race: Option<String>, mon: &mut Mon) -> String {
+        // What the property obliges this publish to do, from the monitor's own records:
+        let mut must_prune: Vec<String> = Vec::new();
+        let mut any_live_target = false;
+        for (id, rec) in &self.subs {
+            if rec.topic != *topic || rec.unsub_at.is_some() {
+                continue;
+            }
+            let conn = &self.conns[rec.conn];
+            if conn.rx.is_none() {
+                must_prune.push(id.clone());
+            } else {
+                any_live_target = true;
+                if conn.tx.capacity() == 0 {
+                    mon.count("target-full");
+                    self.saw_full = true;
+                } else {
+                    mon.count("target-has-room");
+                }
+            }
+        }
+        let (len_before, _) = self.bounded(self.hub.len());
+        self.pub_log.push((topic.to_string(), n));
+        let mut race_out = String::new();
+        let (done, polls) = match &race {
+            None => {
+                let (r, polls) = self.bounded(self.hub.publish(topic, json!(n)));
+                (r.is_some(), polls)
+            }
+            Some(id) => {
+                mon.count("racepub");
+                let victim_tx = self.subs.get(id).map(|rec| self.conns[rec.conn].tx.clone());
+                let occ = |tx: &Option<mpsc::Sender<String>>| tx.as_ref().map(|t| t.max_capacity() - t.capacity());
+                let (hub_a, hub_b) = (self.hub.clone(), self.hub.clone());
+                let (topic_a, id_b, vtx_b) = (topic.to_string(), id.clone(), victim_tx.clone());
+                let (r, _) = self.bounded(async move {
+                    let a = tokio::spawn(async move { hub_a.publish(&topic_a, json!(n)).await });
+                    let b = tokio::spawn(async move {
+                        let removed = hub_b.unsubscribe(&id_b).await;
+                        // queue length of the victim's channel at the moment unsubscribe returned
+                        (removed, vtx_b.as_ref().map(|t| t.max_capacity() - t.capacity()))
+                    });
+                    let _ = a.await;
+                    b.await.ok()
+                });
+                match r {
+                    Some(Some((removed, occ_at_unsub))) => {
+                        let occ_after = occ(&victim_tx);
+                        if let (Some(at), Some(after)) = (occ_at_unsub, occ_after) {
+                            if after > at {
+                                mon.fail(
+                                    P,
+                                    "after-unsubscribe",
+                                    format!(
+                                        "{id}: publish({topic},{n}) enqueued {} event(s) on the subscriber's channel after a concurrent unsubscribe({id}) had returned (queue {at} -> {after})",
+                                        after - at
+                                    ),
+                                );
+                            }
+                        }
+                        let npub = self.pub_log.len();
+                        match self.subs.get_mut(id) {
+                            Some(rec) => {
+                                if rec.unsub_at.is_none() {
+                                    rec.unsub_at = Some(npub);
+                                }
+                            }
+                            None => {
+                                if removed {
+                                    mon.fail(P, "removed-unknown-id", format!("unsubscribe({id}) returned true for an id never handed out"));
+                                }
+                            }
+                        }
+                        must_prune.retain(|x| x != id);
+                        race_out = format!(" removed={}", show_bool(removed));
+                        (true, 1)
+                    }
+                    _ => (false, 1),
+                }
+            }
+        };
+        if !done {
+            mon.fail(
+                P,
+                "publish-blocked",
+                format!("publish({topic},{n}) did not complete within {CALL_BOUND:?}: it waits on a subscriber"),
+            );
+            return "BLOCKED".into();
+        }
+        if polls > 1 {
+            mon.count("multi-poll");
+        }
+        if !any_live_target && must_prune.is_empty() {
+            mon.count("pub-no-subscriber");
+        }
+        // pruned: every closed subscriber of this topic is absent once publish has returned.
+        // Probe with unsubscribe: it returns false (and changes nothing) iff the id is absent.
+        if !must_prune.is_empty() {
+            self.saw_closed = true;
+            mon.count("pub-with-closed-target");
+        }
+        for id in &must_prune {
+            let (still, _) = self.bounded(self.hub.unsubscribe(id));
+            if still == Some(true) {
+                mon.fail(
+                    P,
+                    "not-pruned",
+                    format!("{id} (topic {topic}, receiver dropped) was still registered after publish({topic},{n}) returned"),
+                );
+            }
+            if let Some(rec) = self.subs.get_mut(id) {
+                rec.unsub_at = Some(self.pub_log.len() - 1);
+            }
+        }
+        let (len_after, _) = self.bounded(self.hub.len());
+        if let (Some(b), Some(a)) = (len_before, len_after) {
+            if a > b {
+                mon.fail(P, "publish-grew-hub", format!("len {b} -> {a} across publish"));
+            }
+        }
+        format!("ok{race_out}")
+    }
+
     fn gen_topic(rng: &mut Rng) -> &'static str {
         match rng.below(100) {
             0..=57 => "stats",
@@ -197,6 +324,45 @@ impl HubC {
 impl Component for HubC {
     fn gen_case(&mut self, rng: &mut Rng, _tier: Tier, idx: usize) -> Vec<String> {
         let mut ops: Vec<String> = Vec::new();
+        // Interleaving cases.  `racepub`: publish and unsubscribe of the victim as concurrent tasks, with
+        // enough closed same-topic subscriptions ahead of the victim that any per-subscriber await in
+        // `publish` runs the task out of tokio's cooperative budget (128) and lets the unsubscribe in.
+        if idx % 20 == 13 {
+            let ndead = rng.range(130, 300);
+            let topic = Self::gen_topic(rng);
+            ops.push("conn 1".into());
+            ops.push(format!("conn {}", rng.range(2, 4)));
+            let victim_first = rng.chance(1, 4);
+            let mut victim = ndead;
+            if victim_first {
+                ops.push(format!("sub 1 {topic}"));
+                victim = 0;
+            }
+            ops.push(format!("subn 0 {topic} {ndead}"));
+            if !victim_first {
+                ops.push(format!("sub 1 {topic}"));
+            }
+            if rng.chance(3, 4) {
+                ops.push("close 0".into());
+            }
+            if rng.chance(1, 3) {
+                ops.push(format!("pub {topic} 1"));
+                ops.push("recv 1".into());
+            }
+            ops.push(format!("racepub {topic} 2 {victim}"));
+            ops.push("recv 1".into());
+            ops.push("recv 1".into());
+            ops.push(format!("pub {topic} 3"));
+            ops.push("recv 1".into());
+            ops.push("len".into());
+            return ops;
+        }
+        // Real parallelism (publisher thread vs. unsubscribing thread) on a private hub.
+        if idx % 400 == 3 {
+            ops.push(format!("par {} {}", rng.range(16, 96), if matches!(_tier, Tier::Quick) { 150 } else { 400 }));
+            ops.push("len".into());
+            return ops;
+        }
         let nconn = rng.range(2, 4) as usize;
         // every 5th case: tiny channels so that Full dominates
         let tiny = idx % 5 == 0;
@@ -406,67 +572,40 @@ impl Component for HubC {
                 if !valid_topic(topic) {
                     return "bad-op".into();
                 }
-                // What the property obliges this publish to do, from the monitor's own records:
-                let mut must_prune: Vec<String> = Vec::new();
-                let mut any_live_target = false;
-                for (id, rec) in &self.subs {
-                    if rec.topic != *topic || rec.unsub_at.is_some() {
-                        continue;
+                self.do_pub(topic, n, None, mon)
+            }
+            ["racepub", topic, n, k] => {
+                let (Ok(n), Ok(k)) = (n.parse::<u64>(), k.parse::<u64>()) else { return "bad-op".into() };
+                if !valid_topic(topic) {
+                    return "bad-op".into();
+                }
+                self.do_pub(topic, n, Some(format!("sub-{k}")), mon)
+            }
+            ["subn", c, topic, count] => {
+                let (Ok(c), Ok(count)) = (c.parse::<usize>(), count.parse::<usize>()) else { return "bad-op".into() };
+                if c >= self.conns.len() || !valid_topic(topic) || count == 0 || count > 1000 {
+                    return "bad-op".into();
+                }
+                let mut first = String::new();
+                let mut last = String::new();
+                for i in 0..count {
+                    let r = self.exec(&["sub", toks[1], topic], mon);
+                    if i == 0 {
+                        first = r.clone();
                     }
-                    let conn = &self.conns[rec.conn];
-                    if conn.rx.is_none() {
-                        must_prune.push(id.clone());
-                    } else {
-                        any_live_target = true;
-                        if conn.tx.capacity() == 0 {
-                            mon.count("target-full");
-                            self.saw_full = true;
-                        } else {
-                            mon.count("target-has-room");
-                        }
-                    }
+                    last = r;
                 }
-                let (len_before, _) = self.bounded(self.hub.len());
-                self.pub_log.push((topic.to_string(), n));
-                let (r, polls) = self.bounded(self.hub.publish(topic, json!(n)));
-                if r.is_none() {
-                    mon.fail(
-                        P,
-                        "publish-blocked",
-                        format!("publish({topic},{n}) did not complete within {CALL_BOUND:?}: it waits on a subscriber"),
-                    );
-                    return "BLOCKED".into();
+                format!("first:{first} last:{last}")
+            }
+            ["par", nsubs, rounds] => {
+                let (Ok(nsubs), Ok(rounds)) = (nsubs.parse::<usize>(), rounds.parse::<usize>()) else {
+                    return "bad-op".into();
+                };
+                if nsubs == 0 || nsubs > 1024 || rounds == 0 || rounds > 100_000 {
+                    return "bad-op".into();
                 }
-                if polls > 1 {
-                    mon.count("multi-poll");
-                }
-                if !any_live_target && must_prune.is_empty() {
-                    mon.count("pub-no-subscriber");
-                }
-                // pruned: every closed subscriber of this topic is absent once publish has returned.
-                // Probe with unsubscribe: it returns false (and changes nothing) iff the id is absent.
-                if !must_prune.is_empty() {
-                    self.saw_closed = true;
-                    mon.count("pub-with-closed-target");
-                }
-                for id in &must_prune {
-                    let (still, _) = self.bounded(self.hub.unsubscribe(id));
-                    if still == Some(true) {
-                        mon.fail(
-                            P,
-                            "not-pruned",
-                            format!("{id} (topic {topic}, receiver dropped) was still registered after publish({topic},{n}) returned"),
-                        );
-                    }
-                    if let Some(rec) = self.subs.get_mut(id) {
-                        rec.unsub_at = Some(self.pub_log.len() - 1);
-                    }
-                }
-                let (len_after, _) = self.bounded(self.hub.len());
-                if let (Some(b), Some(a)) = (len_before, len_after) {
-                    if a > b {
-                        mon.fail(P, "publish-grew-hub", format!("len {b} -> {a} across publish"));
-                    }
+                if let Some(desc) = par_stress(nsubs, rounds, mon) {
+                    mon.fail(P, "after-unsubscribe-parallel", desc);
                 }
                 "ok".into()
             }
@@ -534,6 +673,82 @@ impl Component for HubC {
          malformed op lines; tail drain. Non-trivial: at least one event was received AND some publish met a full \
          channel or a dropped receiver."
     }
+}
+
+/// Real-parallelism probe (monitor only; nondeterministic, one-sided): a publisher thread fans a
+/// large payload out to `nsubs` filler subscriptions plus a victim subscribed last, while this
+/// thread unsubscribes the victim in the middle of a fan-out.  Once `unsubscribe` has returned and
+/// the victim's channel has been drained, nothing more may ever arrive on it.  Uses a private hub,
+/// so the case's hub (and the model's state) is untouched.
+fn par_stress(nsubs: usize, rounds: usize, mon: &mut Mon) -> Option<String> {
+    use std::sync::Arc;
+    use std::sync::atomic::{AtomicBool, AtomicU64, Ordering};
+    let hub = SubscriptionHub::new();
+    let rt = tokio::runtime::Builder::new_current_thread().build().expect("runtime");
+    let mut fillers = Vec::new();
+    for _ in 0..nsubs {
+        let (tx, rx) = mpsc::channel::<String>(1);
+        rt.block_on(hub.subscribe("stats", tx));
+        fillers.push(rx);
+    }
+    let stop = Arc::new(AtomicBool::new(false));
+    let started = Arc::new(AtomicU64::new(0));
+    let finished = Arc::new(AtomicU64::new(0));
+    let publisher = {
+        let (hub, stop, started, finished) = (hub.clone(), stop.clone(), started.clone(), finished.clone());
+        std::thread::spawn(move || {
+            let rt = tokio::runtime::Builder::new_current_thread().build().expect("runtime");
+            let pad = "x".repeat(1500);
+            let mut k = 0u64;
+            while !stop.load(Ordering::Acquire) {
+                started.fetch_add(1, Ordering::AcqRel);
+                rt.block_on(hub.publish("stats", json!({"k": k, "pad": pad})));
+                finished.fetch_add(1, Ordering::AcqRel);
+                k += 1;
+            }
+        })
+    };
+    let mut found = None;
+    let mut spin_seed = 0x9E37_79B9u64;
+    for round in 0..rounds {
+        let (tx, mut rx) = mpsc::channel::<String>(4096);
+        let id = rt.block_on(hub.subscribe("stats", tx.clone()));
+        // wait for the next fan-out to begin, then a short pseudo-random spin into it
+        let s0 = started.load(Ordering::Acquire);
+        let t0 = std::time::Instant::now();
+        while started.load(Ordering::Acquire) == s0 && t0.elapsed() < Duration::from_millis(50) {
+            std::hint::spin_loop();
+        }
+        spin_seed = spin_seed.wrapping_mul(6364136223846793005).wrapping_add(1442695040888963407);
+        for _ in 0..(spin_seed >> 33) % 4000 {
+            std::hint::spin_loop();
+        }
+        rt.block_on(hub.unsubscribe(&id));
+        let mut drained = 0usize;
+        while rx.try_recv().is_ok() {
+            drained += 1;
+        }
+        // let the publisher finish the fan-out that was in progress and one more
+        let f0 = finished.load(Ordering::Acquire);
+        let t1 = std::time::Instant::now();
+        while finished.load(Ordering::Acquire) < f0 + 2 && t1.elapsed() < Duration::from_millis(200) {
+            std::thread::yield_now();
+        }
+        if let Ok(line) = rx.try_recv() {
+            found = Some(format!(
+                "parallel run, round {round}: after unsubscribe({id}) had returned and the {drained} queued event(s) were drained, a later event was enqueued for it ({} bytes: {}...)",
+                line.len(),
+                &line[..line.len().min(90)]
+            ));
+            break;
+        }
+        mon.count("par-round");
+        drop(tx);
+    }
+    stop.store(true, Ordering::Release);
+    let _ = publisher.join();
+    drop(fillers);
+    found
 }
 
 fn main() {
